@@ -65,3 +65,22 @@ Theorem C20_monitor_clauses_sound :
   (forall t d, mirrors_perm_b t d = true -> MirrorsP t d) /\ (forall t d, Mirrors t d -> MirrorsP t d).
 Proof. exact (conj nodes_once_b_sound (conj mirrors_b_sound (conj mirrors_perm_b_sound mirrors_weaken))). Qed.
 Print Assumptions C20_monitor_clauses_sound.
+
+(* ---- at the strength of the property text (false alarms corrected, harmless changes) ----
+   The property promises the display name and the port cells of a node statement, not the metadata lines; a type label
+   on value edges, nothing about the labels of the other edge kinds.  The monitor evaluates spec_p_b; the model meets
+   it, its edge clause is sound for the Prop statement, and the strict clauses above imply the promised ones. *)
+Theorem C20_one_edge_per_link_value_labels_only : forall c h, EdgesOnceP h (render c (hv_tree h) (hv_links h)).
+Proof. exact render_edges_once_p. Qed.
+Print Assumptions C20_one_edge_per_link_value_labels_only.
+Theorem C20_model_meets_promised_spec : forall c h,
+  NoDup (map ni_idx (tree_infos (hv_tree h))) ->
+  perm_eqb Z.eqb (map ni_idx (tree_infos (hv_tree h))) (hv_nodes h) = true ->
+  spec_p_b c h (render c (hv_tree h) (hv_links h)) = true.
+Proof. exact render_meets_promised_spec. Qed.
+Print Assumptions C20_model_meets_promised_spec.
+Theorem C20_promised_clauses_sound :
+  (forall h d, edges_promised_b h d = true -> EdgesOnceP h d) /\ (forall h d, EdgesOnce h d -> EdgesOnceP h d) /\
+  (forall c h d, stmts_carry_b c h d = true -> stmts_promised_b c h d = true).
+Proof. exact (conj edges_promised_b_sound (conj edges_weaken stmts_weaken)). Qed.
+Print Assumptions C20_promised_clauses_sound.
